@@ -13,7 +13,8 @@ def event_trace(seed, tier):
     """returns (evaluations, witnesses, stats)"""
     import impl          # first: puts the tree under test on sys.path
     from simprocesd.model import System
-    from simprocesd.model.factory_floor import Source, Sink, PartProcessor, Buffer
+    from simprocesd.model.factory_floor import Source, Sink, PartProcessor, Buffer, Maintainer
+    import functools
     impl.CTX = None
     rng = random.Random(f'c15-{seed}-{tier}')
     n = 8 if tier == 'quick' else 60
@@ -31,20 +32,45 @@ def event_trace(seed, tier):
             b = Buffer('b', [m], minimum_delay=rng.choice([0, 2]))
             Sink('k', [b])
             env = s.env
+            # every other model has maintenance and a failure: the maintainer's own events and the events scheduled
+            # below are functools.partial objects (no __name__ of their own); the trace must list them like any other
+            maint = Maintainer('mt') if t % 2 == 1 else None
+            if maint is not None:
+                s.simulate(0, print_summary=False)      # initialise, so that a failure can be scheduled
+
+                def ask(maint=maint, m=m):
+                    maint.create_work_order(m, 'fix')
+                env.schedule_event(rng.choice([1, 2, 4]), -1, functools.partial(ask))
+                m.schedule_failure(rng.choice([3, 5]), 'f')
+                m.add_shutdown_callback(lambda dev, is_failure, part, maint=maint: maint.create_work_order(dev, 'repair') if is_failure else None)
             seen = []          # what a traced step executes, in order
             orig_step = env.step
+
+            def name_of(a):
+                # named callables by their name; anything else (partial objects) only has to be listed with SOME text
+                return getattr(a, '__name__', None)
 
             def step(env=env, orig_step=orig_step):
                 e = env._events[0]
                 if env._trace:
-                    seen.append((e.time, e.asset_id, e.action.__name__))
+                    seen.append((e.time, e.asset_id, name_of(e.action)))
                 return orig_step()
             env.step = step
             runs = [(rng.choice([2, 3, 5, 6]), rng.random() < 0.7) for _ in range(rng.randint(2, 4))]
             for d, traced in runs:
-                s.simulate(d, trace=traced, print_summary=False)
+                try:
+                    s.simulate(d, trace=traced, print_summary=False)
+                except Exception as e:
+                    wit.append({'kind': 'event-trace-crash', 'with_maintainer': maint is not None, 'traced': traced,
+                                'runs_so_far': [list(r) for r in runs],
+                                'raised': f'{type(e).__name__}: {e}'[:200]})
+                    break
                 tr = env._event_trace
                 got = [(tr[k]['time'], tr[k]['asset_id'], tr[k]['action']) for k in sorted(tr)]
+                if len(got) == len(seen):
+                    # an action without a name of its own is compared as "listed with a text"
+                    got = [(g[0], g[1], g[2] if s_[2] is not None else (None if isinstance(g[2], str) else g[2]))
+                           for g, s_ in zip(got, seen)]
                 if got != seen or sorted(tr) != list(range(len(tr))):
                     wit.append({'kind': 'event-trace', 'runs_so_far': [list(r) for r in runs], 'trace_has': len(got),
                                 'executed_in_traced_runs': len(seen),
@@ -55,7 +81,8 @@ def event_trace(seed, tier):
                 if traced:
                     path = os.path.join(home, 'Downloads', f'{env.name}_trace.json')
                     exported = json.load(open(path))
-                    if [(v['time'], v['asset_id'], v['action']) for _, v in sorted(exported.items(), key=lambda kv: int(kv[0]))] != seen:
+                    if [(v['time'], v['asset_id']) for _, v in sorted(exported.items(), key=lambda kv: int(kv[0]))] != [x[:2] for x in seen] or \
+                            any(v['action'] != x[2] for (_, v), x in zip(sorted(exported.items(), key=lambda kv: int(kv[0])), seen) if x[2] is not None):
                         wit.append({'kind': 'event-trace-export', 'exported': len(exported), 'executed_in_traced_runs': len(seen)})
                         break
             total += len(seen)
